@@ -24,7 +24,7 @@ Window(c) == UNION {{<<line, ch>> : ch \in 0..(c.link_end + 6)} : line \in 0..(c
 Expected(c) == (UNION {Span(c, line) : line \in 0..(c.last_line + 1)}) \cap Window(c)
 
 \* (with nothing before or after it the link under test is itself a block reference)
-RefBlockLines(c) == IF c.prefix = <<>> /\ c.suffix = <<>> THEN <<c.link_line, c.ref_line>> ELSE <<c.ref_line>>
+RefBlockLines(c) == IF c.prefix = <<>> /\ c.suffix = <<>> /\ c.wrap = "none" THEN <<c.link_line, c.ref_line>> ELSE <<c.ref_line>>
 
 Fired(s) == {<<p[1], p[2]>> : p \in Range(s)}
 
@@ -41,7 +41,7 @@ Reasons(e) ==
         \cup {<<"rename-range-wrong", q>> :
                  q \in {r \in Range(e.prep) : r[1] = c.link_line /\ (r[3] # c.link_line \/ r[4] # c.url_start \/ r[5] # c.link_line \/ r[6] # c.url_end)}}
         \* locations name the line where the block really is
-        \cup (IF e.ref_lines # <<c.link_line, c.ref_line, c.item_line>> THEN {<<"reference-lines", e.ref_lines>>} ELSE {})
+        \cup (IF e.ref_lines # <<c.block_line, c.ref_line, c.item_line>> THEN {<<"reference-lines", e.ref_lines>>} ELSE {})
         \cup (IF e.hint_lines # RefBlockLines(c) THEN {<<"hint-lines", e.hint_lines>>} ELSE {})
         \cup (IF e.sym_lines # <<c.head_line>> THEN {<<"symbol-lines", e.sym_lines>>} ELSE {})
         \* code actions offered at a line operate on the block that covers that line
